@@ -317,7 +317,7 @@ var verifC02Stream string
 func verifC02Print(f *ErrorFormatter, out io.Writer, t []*ErrorTemplateFields) error {
 	s := ""
 	for _, e := range t {
-		s += e.Filepath + ":" + strconv.Itoa(e.Line) + ":" + strconv.Itoa(e.Column) + ": " + e.Message + "\n"
+		s += e.Filepath + ":" + strconv.Itoa(e.Line) + ":" + strconv.Itoa(e.Column) + ": " + e.Message + " [" + e.Kind + "] " + e.Snippet + "\n"
 	}
 	verifC02Stream = s
 	return nil
@@ -336,12 +336,13 @@ func HarnessC02Format() {
 		return "on: push\njobs:\n  j" + strconv.Itoa(k) + ":\n    runs-on: ubuntu-latest\n    steps:\n      - run: echo ${{ unknown" + strconv.Itoa(k) + ".x }}\n"
 	}
 	// two repositories; /r's configuration ignores the diagnostics of its files, /s has none
-	paths := []string{"/r/.github/workflows/a.yml", "/r/.github/workflows/c.yml", "/s/.github/workflows/b.yml"}
+	// (a.yml, whose only diagnostic is ignored, sits between two files with diagnostics)
+	paths := []string{"/r/.github/workflows/c.yml", "/r/.github/workflows/a.yml", "/s/.github/workflows/b.yml"}
 	if verifIsNative() {
 		verifC02NativeFormat()
 		return
 	}
-	verifC10Files = map[string]string{paths[0]: wf(0), paths[1]: wf(1), paths[2]: wf(2)}
+	verifC10Files = map[string]string{paths[0]: wf(1), paths[1]: wf(0), paths[2]: wf(2)}
 	verifC10Cfg = map[string]*Config{
 		"/r": verifConfig("paths:\n  .github/workflows/a.yml:\n    ignore:\n      - undefined variable\n"),
 	}
@@ -350,11 +351,13 @@ func HarnessC02Format() {
 	verifOverride("findProject", verifC10FindProject)
 	verifOverride("loadRepoConfig", verifC10RepoConfig)
 	verifOverride("(*ErrorFormatter).Print", verifC02Print)
-	alone := ""
+	alone, aloneStream := "", ""
 	for _, p := range paths {
-		l := verifLinter("", "", "")
+		l := verifLinterFmt("", &ErrorFormatter{rules: map[string]*ruleTemplateFields{}})
+		verifC02Stream = ""
 		errs, err := l.LintFile(p, nil)
 		verifCheck(err == nil, "lint-failed")
+		aloneStream += verifC02Stream // what the template printer gets for this file alone (message, position, kind, snippet)
 		for _, e := range errs {
 			alone += e.Filepath + ":" + strconv.Itoa(e.Line) + ": " + e.Message + "\n"
 		}
@@ -374,9 +377,15 @@ func HarnessC02Format() {
 	}
 	s0, r0 := run([]int{0, 1, 2})
 	s1, r1 := run(perm)
+	// GOMAXPROCS = 1: the same list goes to the printer and comes back
+	verifSetGOMAXPROCS(1)
+	s2, r2 := run(perm)
+	verifSetGOMAXPROCS(0)
+	verifCheckf(s0 == s2 && r0 == r2, "result-depends-on-GOMAXPROCS", s2)
 	verifReach("compared")
 	verifCheckf(len(s0) > 0 && len(r0) > 0, "baseline-lost-its-diagnostics", s0)
 	verifCheckf(r0 == alone, "multi-file-result-differs-from-the-files-linted-alone", r0+" <> "+alone)
+	verifCheckf(s0 == aloneStream, "formatted-fields-of-a-multi-file-run-differ-from-the-files-formatted-alone", s0+" <> "+aloneStream)
 	verifCheckf(s0 == s1, "formatted-output-depends-on-goroutine-completion-order", s1)
 	verifCheckf(r0 == r1, "returned-diagnostics-depend-on-goroutine-completion-order", r1)
 }
@@ -553,4 +562,44 @@ func HarnessC02ConfigError() {
 		verifCheckf(err1 != nil && err1.Error() == err0.Error(), "output-depends-on-map-iteration-order", err0.Error())
 	}
 	verifReach("compared")
+}
+
+// HarnessC02Nested: a repository nested in another one (vendored), each with
+// its own configuration; one Linter lints [inner file, outer file] twice: the
+// second run returns what the first one returned, and every file is checked
+// with the configuration of the repository that directly contains it.
+func HarnessC02Nested() {
+	wf := func(label string) string {
+		return "on: push\njobs:\n  j:\n    runs-on: [self-hosted, " + label + "]\n    steps:\n      - run: echo\n"
+	}
+	paths := []string{"/o/v/i/.github/workflows/ci.yml", "/o/.github/workflows/ci.yml"}
+	if verifIsNative() {
+		verifC02NativeNested()
+		return
+	}
+	verifC10Files = map[string]string{paths[0]: wf("runner-of-inner"), paths[1]: wf("runner-of-outer")}
+	verifC10Tree = map[string]int{"/o/.git": 1, "/o/.github/workflows": 1, "/o/v/i/.git": 1, "/o/v/i/.github/workflows": 1}
+	verifC10Cfg = map[string]*Config{
+		"/o":     verifConfig("self-hosted-runner:\n  labels:\n    - runner-of-outer\n"),
+		"/o/v/i": verifConfig("self-hosted-runner:\n  labels:\n    - runner-of-inner\n"),
+	}
+	verifSetCwd("/")
+	verifOverride("os.ReadFile", verifC10ReadFile)
+	verifOverride("os.Stat", verifC10StatTree)
+	verifOverride("loadRepoConfig", verifC10RepoConfig)
+	l := verifLinter("", "", "")
+	digest := func(errs []*Error, err error) string {
+		verifCheck(err == nil, "lint-failed")
+		out := ""
+		for _, e := range errs {
+			out += e.Filepath + ":" + strconv.Itoa(e.Line) + ": " + e.Message + "\n"
+		}
+		return out
+	}
+	r1 := digest(l.LintFiles(paths, nil))
+	r2 := digest(l.LintFiles(paths, nil))
+	r3 := digest(l.LintFiles([]string{paths[1], paths[0]}, nil))
+	verifReach("compared")
+	verifCheckf(r1 == "", "file-checked-with-another-repository's-configuration", r1)
+	verifCheckf(r1 == r2 && r3 == "", "result-depends-on-how-many-times-the-run-is-repeated", r2+" / "+r3)
 }
